@@ -216,6 +216,8 @@ Section PtInd.
   Hypothesis HArith : forall l r, P l -> P r -> P (PArith l r).
   Hypothesis HWrap : forall b, P b -> P (PWrap b).
   Hypothesis HRev : forall b, P b -> P (PRev b).
+  Hypothesis HConstr : forall cs b, P b -> P (PConstr cs b).
+  Hypothesis HSingle : forall b, P b -> P (PSingle b).
   Fixpoint pt_ind' (p : pt) : P p :=
     let go := fix go (l : list pt) : Forall P l :=
       match l with [] => Forall_nil _ | c :: t => Forall_cons _ (pt_ind' c) (go t) end in
@@ -230,6 +232,8 @@ Section PtInd.
     | PArith l r => HArith l r (pt_ind' l) (pt_ind' r)
     | PWrap b => HWrap b (pt_ind' b)
     | PRev b => HRev b (pt_ind' b)
+    | PConstr cs b => HConstr cs b (pt_ind' b)
+    | PSingle b => HSingle b (pt_ind' b)
     end.
 End PtInd.
 
@@ -306,7 +310,7 @@ Proof.
 Qed.
 Lemma vmax_time a b v : vmax a b = Ok v -> time_of v == Qmaxq (time_of a) (time_of b).
 Proof.
-  unfold vmax, Qmaxq, cmpq. destruct a, b; intros H; inversion H; subst; clear H; cbn [time_of];
+  unfold vmax, Qmaxq. destruct a, b; intros H; inversion H; subst; clear H; cbn [time_of];
     match goal with |- context [Qleb ?x ?y] => destruct (Qleb x y) end; reflexivity.
 Qed.
 
@@ -314,7 +318,9 @@ Lemma eval_qeval e x : forall v, eval e x = Ok v -> exists q, qeval (qenv_of e) 
 Proof.
   induction x; cbn; intros v0 H.
   - inversion H; subst. eexists; split; reflexivity.
-  - rewrite lookup_qenv. destruct (lookup e x); inversion H; subst. cbn. eexists; split; [reflexivity | apply Qred_correct].
+  - rewrite lookup_qenv. destruct (lookup e x) as [v|]; [|discriminate].
+    assert (v0 = v) by (destruct v; inversion H; reflexivity). subst v0.
+    cbn [option_map]. eexists; split; [reflexivity | apply Qred_correct].
   - inv_ok. destruct (IHx1 _ H0) as (q1 & -> & E1), (IHx2 _ H1) as (q2 & -> & E2). cbn.
     eexists; split; [reflexivity|]. rewrite (vadd_time _ _ _ H), E1, E2. reflexivity.
   - inv_ok. destruct (IHx1 _ H0) as (q1 & -> & E1), (IHx2 _ H1) as (q2 & -> & E2). cbn.
@@ -366,13 +372,75 @@ Proof.
   rewrite E. reflexivity.
 Qed.
 
-Lemma int_of_qint v n q z : int_of v = Ok n -> q == time_of v -> qint q = Some z -> n = z.
+Lemma int_of_round c v n : int_of c v = Ok n -> match v with VInt z => n = z | _ => n = Qround_half_even (cv c v) end.
+Proof.
+  destruct v; cbn; intros H; try (inversion H; reflexivity);
+    destruct (Qltb _ _); try discriminate; destruct (_ && _)%bool; inversion H; reflexivity.
+Qed.
+
+(* ------------------------------------------------------------------------------------------------------------ *)
+(* create_program only builds well-formed trees: every repetition count >= 1, no childless inner node *)
+Definition Lp (cf : cfg) (p : pt) : Prop := forall e kids, cp cf p e = Ok kids -> Forall wfl kids.
+
+Lemma wfl_wrap n kids : (1 <= n)%Z -> Forall wfl kids -> Forall wfl (wrap_node n kids).
+Proof.
+  intros Hn Hk. destruct kids as [|k t]; cbn [wrap_node]; constructor; [|constructor].
+  apply wfl_node. repeat split; [exact Hn | discriminate | exact Hk].
+Qed.
+
+Lemma Forall_concat {A} (P : A -> Prop) (ls : list (list A)) : Forall (Forall P) ls -> Forall P (concat ls).
+Proof. induction 1; cbn; [constructor | apply Forall_app; split; assumption]. Qed.
+
+Lemma lp_atomic cf p e kids :
+  (do w <- wf_of cf p e; Ok (match w with Some c => [Leaf 1 (cdur c)] | None => [] end)) = Ok kids -> Forall wfl kids.
+Proof.
+  intros H. apply rbind_ok in H as (w & _ & H). inversion H; subst. destruct w; repeat constructor. cbn. lia.
+Qed.
+
+Lemma Forall2_right {A B} (P : A -> Prop) (Q : B -> Prop) (R : A -> B -> Prop) l l' :
+  (forall x y, P x -> R x y -> Q y) -> Forall P l -> Forall2 R l l' -> Forall Q l'.
+Proof. intros H HP H2. induction H2; constructor; inversion HP; subst; eauto. Qed.
+
+Lemma Lp_all cf : forall p, Lp cf p.
+Proof.
+  induction p using pt_ind'; unfold Lp; intros e kids Hc; cbn [cp] in Hc.
+  - eapply lp_atomic; eassumption.
+  - eapply lp_atomic; eassumption.
+  - apply rbind_ok in Hc as (ks & Hks & Hc). inversion Hc; subst; clear Hc. apply rall_map_inv in Hks.
+    apply Forall_concat. eapply (Forall2_right (Lp cf)); [|exact H|exact Hks]. intros c k HL Hk. exact (HL e k Hk).
+  - apply rbind_ok in Hc as (vc & _ & Hc). apply rbind_ok in Hc as (n & _ & Hc).
+    destruct (_ && _)%bool; [discriminate|].
+    destruct (n <=? 0)%Z eqn:E; [inversion Hc; constructor|].
+    apply rbind_ok in Hc as (kids' & Hk & Hc). inversion Hc; subst. apply wfl_wrap; [lia | eapply IHp; eassumption].
+  - apply rbind_ok in Hc as (va & _ & Hc). apply rbind_ok in Hc as (ia & _ & Hc).
+    apply rbind_ok in Hc as (vb & _ & Hc). apply rbind_ok in Hc as (ib & _ & Hc).
+    apply rbind_ok in Hc as (vs & _ & Hc). apply rbind_ok in Hc as (is & _ & Hc).
+    destruct (is =? 0)%Z; [discriminate|].
+    apply rbind_ok in Hc as (ks & Hks & Hc). inversion Hc; subst; clear Hc. apply rall_map_inv in Hks.
+    apply Forall_concat. eapply (Forall2_right (fun _ => True)); [|apply Forall_forall; trivial|exact Hks].
+    intros v k _ Hk. exact (IHp _ k Hk).
+  - apply rbind_ok in Hc as (e' & _ & Hc). eapply IHp; eassumption.
+  - eapply lp_atomic; eassumption.
+  - eapply lp_atomic; eassumption.
+  - eapply IHp; eassumption.
+  - apply rbind_ok in Hc as (kids' & Hk & Hc). inversion Hc; subst. apply wfl_wrap; [lia | eapply IHp; eassumption].
+  - apply rbind_ok in Hc as (u & _ & Hc). eapply IHp; eassumption.
+  - apply rbind_ok in Hc as (kids' & Hk & Hc). destruct kids'; [inversion Hc; constructor|].
+    destruct (wf_duration _); inversion Hc; subst. repeat constructor. cbn. lia.
+Qed.
+
+Section Cfg.
+Variable cf : cfg.
+Hypothesis Hcv : forall v, cv cf v = time_of v.
+
+Lemma int_of_qint v n q z : int_of cf v = Ok n -> q == time_of v -> qint q = Some z -> n = z.
 Proof.
   intros Hi Hq Hz. apply qint_some in Hz. rewrite Hq in Hz.
-  destruct v; cbn in Hi.
-  - inversion Hi; subst. cbn [time_of] in Hz. apply (proj1 (inject_Z_injective n z)). exact Hz.
-  - unfold cmpq in Hi. cbn in *. destruct (Qltb _ _); inversion Hi; subst. apply round_int; exact Hz.
-  - unfold cmpq in Hi. cbn in *. destruct (Qltb _ _); inversion Hi; subst. apply round_int; exact Hz.
+  apply int_of_round in Hi. destruct v; rewrite ?Hcv in Hi; subst n.
+  - cbn [time_of] in Hz. apply (proj1 (inject_Z_injective z0 z)). exact Hz.
+  - apply round_int; exact Hz.
+  - apply round_int; exact Hz.
+  - apply round_int; exact Hz.
 Qed.
 
 Lemma Forall2_join {A B C} (P : A -> Prop) (R1 : A -> B -> Prop) (R2 : A -> C -> Prop) (R3 : B -> C -> Prop) l a b :
@@ -413,6 +481,35 @@ Proof.
     + apply vmax_time; assumption.
 Qed.
 
+Lemma Qltb_false a b : Qltb a b = false -> b <= a.
+Proof. unfold Qltb. intros H. apply negb_false_iff in H. apply Qle_bool_iff in H. exact H. Qed.
+Lemma Qltb_true a b : Qltb a b = true -> a < b.
+Proof.
+  unfold Qltb. intros H. apply negb_true_iff in H. apply Qnot_le_lt. intros C. apply Qle_bool_iff in C. congruence.
+Qed.
+Lemma Qleb_true a b : Qleb a b = true -> a <= b.
+Proof. unfold Qleb. apply Qle_bool_iff. Qed.
+Lemma Qleb_false a b : Qleb a b = false -> b < a.
+Proof. unfold Qleb. intros H. apply Qnot_le_lt. intros C. apply Qle_bool_iff in C. congruence. Qed.
+Lemma Qeqb_true a b : Qeqb a b = true -> a == b.
+Proof. unfold Qeqb. apply Qeq_bool_iff. Qed.
+
+Lemma pymax_time f a b : (forall v, f v = time_of v) -> time_of (pymax f a b) == Qmaxq (time_of a) (time_of b).
+Proof.
+  intros Hf. unfold pymax, Qmaxq. rewrite !Hf. destruct (Qltb _ _) eqn:E1, (Qleb _ _) eqn:E2; try reflexivity.
+  - apply Qltb_true in E1. apply Qleb_false in E2. lra.
+  - apply Qltb_false in E1. apply Qleb_true in E2. lra.
+Qed.
+
+Lemma pymax_list_time f l : (forall v, f v = time_of v) ->
+  forall a, time_of (pymax_list f a l) == qmax_list (time_of a) (map time_of l).
+Proof.
+  intros Hf. induction l as [|b t IH]; cbn; intros a; [reflexivity|].
+  rewrite IH. apply qmax_list_comp.
+  - clear. induction t; constructor; [reflexivity | assumption].
+  - apply pymax_time; assumption.
+Qed.
+
 Definition vq (v : value) (q : Q) : Prop := q == time_of v.
 
 Lemma evals_rel e ts vs qs :
@@ -441,36 +538,36 @@ Proof.
   - apply IH; assumption.
 Qed.
 
-Lemma table_wf_den r e chans w d :
-  table_wf r e chans = Ok w -> den (PTable r chans) (qenv_of e) = Some d ->
+Lemma table_wf_den f r e chans w d : (forall v, f v = time_of v) ->
+  table_wf f r e chans = Ok w -> den (PTable r chans) (qenv_of e) = Some d ->
   match w with None => d == 0 | Some c => c <> [] /\ Forall (fun x => snd x == d) c end.
 Proof.
-  unfold table_wf. cbn [den]. intros H1 H2. inv_ok.
+  intros Hf. unfold table_wf. cbn [den]. intros H1 H2. inv_ok.
   rename x into vals, x0 into qvals.
   destruct (forallb _ qvals) eqn:Hvalid; [|discriminate].
   (* relate the evaluated tables *)
   assert (Hrel : Forall2 (Forall2 vq) vals qvals) by (eapply tables_rel; eassumption).
-  set (ins := map (fun ts => match ts with v :: _ => if Qltb 0 (cmpq v) then VInt 0 :: ts else ts | [] => ts end) vals) in *.
+  set (ins := map (fun ts => match ts with v :: _ => if Qltb 0 (f v) then VInt 0 :: ts else ts | [] => ts end) vals) in *.
   assert (Hlast : Forall2 vq (map lastv ins) (map (fun ts => last ts 0) qvals)).
   { subst ins. rewrite forallb_forall in Hvalid. clear H1 H2 H H0.
     induction Hrel as [|vs qs l l' Hvq Hl IH]; cbn [map]; constructor.
     - assert (Hne : qs <> []).
       { specialize (Hvalid qs (or_introl eq_refl)). destruct qs; [discriminate | discriminate]. }
       destruct Hvq as [|v q vs' qs' Hv Hr]; [congruence|].
-      destruct (Qltb 0 (cmpq v)).
+      destruct (Qltb 0 (f v)).
       + change (lastv (VInt 0 :: v :: vs')) with (last (v :: vs') (VInt 0)). apply last_rel; [constructor; assumption | discriminate].
       + apply last_rel; [constructor; assumption | discriminate].
     - apply IH. intros x Hx. apply Hvalid. right; exact Hx. }
   destruct (map lastv ins) as [|a t] eqn:Ea; [discriminate|].
   destruct (map (fun ts => last ts 0) qvals) as [|qa qt] eqn:Eq; [inversion Hlast|].
   inversion H2; subst; clear H2. inversion Hlast; subst.
-  inv_ok. rename x into dur.
+  set (dur := pymax_list f a t) in *.
   assert (Hd : time_of dur == qmax_list qa qt).
-  { rewrite (vmax_list_time _ _ _ H2). apply qmax_list_comp.
+  { subst dur. rewrite (pymax_list_time f t Hf). apply qmax_list_comp.
     - clear - H7. induction H7; cbn; constructor; [symmetry; assumption | assumption].
     - symmetry; assumption. }
-  destruct (Qeqb (cmpq dur) 0) eqn:Ez.
-  - inversion H1; subst. unfold Qeqb, cmpq in Ez. apply Qeq_bool_iff in Ez. rewrite <- Hd. exact Ez.
+  destruct (Qeqb (f dur) 0) eqn:Ez.
+  - inversion H1; subst. rewrite Hf in Ez. apply Qeqb_true in Ez. rewrite <- Hd. exact Ez.
   - destruct (forallb _ _); inversion H1; subst. split; [discriminate|]. constructor; [cbn; exact Hd | constructor].
 Qed.
 
@@ -505,7 +602,7 @@ Proof.
 Qed.
 
 Definition Wp (p : pt) : Prop :=
-  forall e w d, wf_of p e = Ok w -> den p (qenv_of e) = Some d -> wf_ok w d.
+  forall e w d, wf_of cf p e = Ok w -> den p (qenv_of e) = Some d -> wf_ok w d.
 
 Lemma all_eq_forall d l : all_eq d l = true -> Forall (fun x => d == x) l.
 Proof.
@@ -541,14 +638,16 @@ Proof.
   - (* atom *)
     cbn [den] in Hd. apply obind_some in Hd as (q & Hq & Hd).
     destruct (Qleb 0 q) eqn:Hpos; [|discriminate]. inversion Hd; subst; clear Hd.
-    destruct k; apply rbind_ok in Hw as (v & Hv & Hw); destruct (eval_qeval _ _ _ Hv) as (q' & Hq' & E);
+    apply rbind_ok in Hw as (v & Hv & Hw); destruct (eval_qeval _ _ _ Hv) as (q' & Hq' & E);
       rewrite Hq in Hq'; inversion Hq'; subst q'.
-    + unfold cmpq in Hw. destruct (Qltb 0 (time_of v)) eqn:Hlt; inversion Hw; subst; cbn.
+    destruct (s_negdur cf && Qltb (cv cf v) 0)%bool; [discriminate|]. rewrite Hcv in Hw.
+    destruct k.
+    + destruct (Qltb 0 (time_of v)) eqn:Hlt; inversion Hw; subst; cbn.
       * split; [discriminate|]. repeat constructor. cbn. symmetry; exact E.
       * unfold Qltb in Hlt. apply negb_false_iff, Qle_bool_iff in Hlt. apply Qle_bool_iff in Hpos.
         apply Qle_antisym; [rewrite E; exact Hlt | exact Hpos].
     + inversion Hw; subst. cbn. split; [discriminate|]. repeat constructor. cbn. symmetry; exact E.
-  - (* table *) eapply table_wf_den; eassumption.
+  - (* table *) eapply table_wf_den; [exact Hcv | eassumption | eassumption].
   - (* map *)
     cbn [den] in Hd. apply obind_some in Hd as (vs & Hvs & Hd). apply rbind_ok in Hw as (e' & He' & Hw).
     eapply IHp; [eassumption|]. erewrite map_env_qenv; eassumption.
@@ -561,11 +660,13 @@ Proof.
     subst d0. clear Hd.
     apply rall_map_inv in Hws. apply oall_map_inv in Hds.
     assert (Hj : Forall2 wf_ok ws (dd :: dt)).
-    { apply (Forall2_join Wp (fun c k => wf_of c e = Ok k) (fun c d => den c (qenv_of e) = Some d) wf_ok subs);
+    { apply (Forall2_join Wp (fun c k => wf_of cf c e = Ok k) (fun c d => den c (qenv_of e) = Some d) wf_ok subs);
         [|exact H|exact Hws|exact Hds].
       intros c w0 d1 HW H1' H2'. exact (HW e w0 d1 H1' H2'). }
     assert (Hall' : Forall (fun x => dd == x) (dd :: dt)) by (constructor; [reflexivity | apply all_eq_forall; exact Hall]).
     pose proof (somes_ok _ _ _ Hj Hall') as Hs.
+    apply rbind_ok in Hw as (res0 & Hw & Hfin).
+    assert (res0 = w) by (destruct (_ && _)%bool; [discriminate | inversion Hfin; reflexivity]). subst res0. clear Hfin.
     destruct (somes ws) as [|w1 rest] eqn:Es.
     + inversion Hw; subst. cbn. inversion Hj as [|w0 ? ws' ? Hw0 Hrest]; subst.
       destruct w0; [cbn in Es; discriminate | exact Hw0].
@@ -590,7 +691,8 @@ Proof.
         + destruct (Qeqb dr 0) eqn:E3; inversion Hd; subst. left. split; [reflexivity | right; apply Qeq_bool_iff; exact E3]. }
     destruct wr as [cr|].
     + destruct wl as [cl|].
-      * destruct (isclose (cdur cl) (cdur cr)) eqn:Hc; inversion Hw; subst; clear Hw.
+      * destruct (isclose (cdur cl) (cdur cr)) eqn:Hc; [|discriminate].
+        destruct (_ && _)%bool; inversion Hw; subst; clear Hw.
         pose proof (wf_ok_cdur _ _ Hl) as El. pose proof (wf_ok_cdur _ _ Hr) as Er.
         split; [discriminate|]. repeat constructor. cbn.
         destruct Hcases as [[E _]|[E E0]]; [rewrite El, E; reflexivity|].
@@ -609,15 +711,18 @@ Proof.
     cbn [den] in Hd. apply rbind_ok in Hw as (w0 & Hw0 & Hw). pose proof (IHp _ _ _ Hw0 Hd) as H0.
     inversion Hw; subst; clear Hw. destruct w0 as [c|]; [|exact H0].
     split; [discriminate|]. repeat constructor. cbn. apply wf_ok_cdur; exact H0.
+  - (* constr *) cbn [den] in Hd. apply rbind_ok in Hw as (u & _ & Hw). eapply IHp; eassumption.
+  - (* single *) cbn [den] in Hd. eapply IHp; eassumption.
 Qed.
+
 
 (* ------------------------------------------------------------------------------------------------------------ *)
 (* the instantiated program lasts exactly as long as the template denotes *)
 Definition Rp (p : pt) : Prop :=
-  forall e kids d, cp p e = Ok kids -> den p (qenv_of e) = Some d -> total kids == d.
+  forall e kids d, cp cf p e = Ok kids -> den p (qenv_of e) = Some d -> total kids == d.
 
 Lemma cp_atomic p e kids d :
-  (do w <- wf_of p e; Ok (match w with Some c => [Leaf 1 (cdur c)] | None => [] end)) = Ok kids ->
+  (do w <- wf_of cf p e; Ok (match w with Some c => [Leaf 1 (cdur c)] | None => [] end)) = Ok kids ->
   den p (qenv_of e) = Some d -> total kids == d.
 Proof.
   intros H Hd. apply rbind_ok in H as (w & Hw & H). inversion H; subst; clear H.
@@ -629,7 +734,7 @@ Qed.
 Lemma qsum_rel (ks : list (list loop)) ds : Forall2 (fun k d => total k == d) ks ds -> qsum (map total ks) == qsum ds.
 Proof. induction 1; cbn; [reflexivity | rewrite H, IHForall2; reflexivity]. Qed.
 
-Lemma eval_int e x v n z : eval e x = Ok v -> int_of v = Ok n ->
+Lemma eval_int e x v n z : eval e x = Ok v -> int_of cf v = Ok n ->
   (let? q := qeval (qenv_of e) x in qint q) = Some z -> n = z.
 Proof.
   intros Hv Hn Hz. apply obind_some in Hz as (q & Hq & Hz).
@@ -648,7 +753,7 @@ Proof.
     apply obind_some in Hd as (ds & Hds & Hd). inversion Hd; subst; clear Hd.
     apply rall_map_inv in Hks. apply oall_map_inv in Hds.
     rewrite total_concat. apply qsum_rel.
-    apply (Forall2_join Rp (fun c k => cp c e = Ok k) (fun c d => den c (qenv_of e) = Some d) (fun k d => total k == d) subs);
+    apply (Forall2_join Rp (fun c k => cp cf c e = Ok k) (fun c d => den c (qenv_of e) = Some d) (fun k d => total k == d) subs);
       [|exact H|exact Hks|exact Hds].
     intros c k d HR H1 H2. exact (HR e k d H1 H2).
   - (* rep *)
@@ -656,7 +761,7 @@ Proof.
     apply rbind_ok in Hc as (vc & Hvc & Hc). apply rbind_ok in Hc as (n & Hn & Hc).
     apply obind_some in Hd as (qc & Hqc & Hd). apply obind_some in Hd as (n' & Hn' & Hd).
     assert (n = n') by (eapply eval_int; [exact Hvc | exact Hn | rewrite Hqc; exact Hn']). subst n'.
-    destruct (n <? 0)%Z eqn:E1; [discriminate|]. destruct (n =? 0)%Z eqn:E2.
+    destruct (n <? 0)%Z eqn:E1; [discriminate|]. rewrite andb_false_r in Hc. destruct (n =? 0)%Z eqn:E2.
     + inversion Hd; subst. destruct (n <=? 0)%Z eqn:E3; [|lia]. inversion Hc; subst. reflexivity.
     + destruct (n <=? 0)%Z eqn:E3; [lia|].
       apply rbind_ok in Hc as (kids' & Hk & Hc). inversion Hc; subst; clear Hc.
@@ -679,7 +784,7 @@ Proof.
     apply obind_some in Hd as (ds & Hds & Hd). inversion Hd; subst; clear Hd.
     apply rall_map_inv in Hks. apply oall_map_inv in Hds.
     rewrite total_concat. apply qsum_rel.
-    apply (Forall2_join (fun _ => True) (fun v k => cp p ((i, VInt v) :: e) = Ok k)
+    apply (Forall2_join (fun _ => True) (fun v k => cp cf p ((i, VInt v) :: e) = Ok k)
              (fun v d => den p ((i, Qred (inject_Z v)) :: qenv_of e) = Some d) (fun k d => total k == d) (zrange ia ib is));
       [|apply Forall_forall; trivial|exact Hks|exact Hds].
     intros v k d _ H1 H2. exact (IHp ((i, VInt v) :: e) k d H1 H2).
@@ -693,65 +798,23 @@ Proof.
   - (* rev *)
     cbn [cp] in Hc. cbn [den] in Hd. apply rbind_ok in Hc as (kids' & Hk & Hc). inversion Hc; subst; clear Hc.
     rewrite total_wrap, (IHp _ _ _ Hk Hd). ring.
+  - (* constr *) cbn [cp] in Hc. cbn [den] in Hd. apply rbind_ok in Hc as (u & _ & Hc). eapply IHp; eassumption.
+  - (* single: the rendered waveform lasts as long as the inner program *)
+    cbn [cp] in Hc. cbn [den] in Hd. apply rbind_ok in Hc as (kids' & Hk & Hc).
+    pose proof (IHp _ _ _ Hk Hd) as Ht. pose proof (Lp_all cf p e kids' Hk) as Hl.
+    destruct kids' as [|k t]; [inversion Hc; subst; exact Ht|].
+    assert (Hw : wfl (Node 1 (k :: t))) by (apply wfl_node; repeat split; [lia | discriminate | exact Hl]).
+    destruct (wf_duration_is_loop_duration _ Hw) as (q & Hq & E). rewrite Hq in Hc. inversion Hc; subst; clear Hc.
+    unfold total at 1. cbn [map qsum loop_duration]. rewrite E. cbn [loop_duration].
+    change (qsum (map loop_duration (k :: t))) with (total (k :: t)). rewrite Ht. ring.
 Qed.
+
 
 (* ------------------------------------------------------------------------------------------------------------ *)
-(* create_program only builds well-formed trees: every repetition count >= 1, no childless inner node *)
-Definition Lp (p : pt) : Prop := forall e kids, cp p e = Ok kids -> Forall wfl kids.
-
-Lemma wfl_wrap n kids : (1 <= n)%Z -> Forall wfl kids -> Forall wfl (wrap_node n kids).
-Proof.
-  intros Hn Hk. destruct kids as [|k t]; cbn [wrap_node]; constructor; [|constructor].
-  apply wfl_node. repeat split; [exact Hn | discriminate | exact Hk].
-Qed.
-
-Lemma Forall_concat {A} (P : A -> Prop) (ls : list (list A)) : Forall (Forall P) ls -> Forall P (concat ls).
-Proof. induction 1; cbn; [constructor | apply Forall_app; split; assumption]. Qed.
-
-Lemma lp_atomic p e kids :
-  (do w <- wf_of p e; Ok (match w with Some c => [Leaf 1 (cdur c)] | None => [] end)) = Ok kids -> Forall wfl kids.
-Proof.
-  intros H. apply rbind_ok in H as (w & _ & H). inversion H; subst. destruct w; repeat constructor. cbn. lia.
-Qed.
-
-Lemma Forall2_right {A B} (P : A -> Prop) (Q : B -> Prop) (R : A -> B -> Prop) l l' :
-  (forall x y, P x -> R x y -> Q y) -> Forall P l -> Forall2 R l l' -> Forall Q l'.
-Proof. intros H HP H2. induction H2; constructor; inversion HP; subst; eauto. Qed.
-
-Lemma Lp_all : forall p, Lp p.
-Proof.
-  induction p using pt_ind'; unfold Lp; intros e kids Hc; cbn [cp] in Hc.
-  - eapply lp_atomic; eassumption.
-  - eapply lp_atomic; eassumption.
-  - apply rbind_ok in Hc as (ks & Hks & Hc). inversion Hc; subst; clear Hc. apply rall_map_inv in Hks.
-    apply Forall_concat. eapply (Forall2_right Lp); [|exact H|exact Hks]. intros c k HL Hk. exact (HL e k Hk).
-  - apply rbind_ok in Hc as (vc & _ & Hc). apply rbind_ok in Hc as (n & _ & Hc).
-    destruct (n <=? 0)%Z eqn:E; [inversion Hc; constructor|].
-    apply rbind_ok in Hc as (kids' & Hk & Hc). inversion Hc; subst. apply wfl_wrap; [lia | eapply IHp; eassumption].
-  - apply rbind_ok in Hc as (va & _ & Hc). apply rbind_ok in Hc as (ia & _ & Hc).
-    apply rbind_ok in Hc as (vb & _ & Hc). apply rbind_ok in Hc as (ib & _ & Hc).
-    apply rbind_ok in Hc as (vs & _ & Hc). apply rbind_ok in Hc as (is & _ & Hc).
-    destruct (is =? 0)%Z; [discriminate|].
-    apply rbind_ok in Hc as (ks & Hks & Hc). inversion Hc; subst; clear Hc. apply rall_map_inv in Hks.
-    apply Forall_concat. eapply (Forall2_right (fun _ => True)); [|apply Forall_forall; trivial|exact Hks].
-    intros v k _ Hk. exact (IHp _ k Hk).
-  - apply rbind_ok in Hc as (e' & _ & Hc). eapply IHp; eassumption.
-  - eapply lp_atomic; eassumption.
-  - eapply lp_atomic; eassumption.
-  - eapply IHp; eassumption.
-  - apply rbind_ok in Hc as (kids' & Hk & Hc). inversion Hc; subst. apply wfl_wrap; [lia | eapply IHp; eassumption].
-Qed.
-
-(* ------------------------------------------------------------------------------------------------------------ *)
-(* the three program-side views and the denoted duration *)
-Lemma qenv_decimalize e : qenv_of (decimalize e) = qenv_of e.
-Proof.
-  unfold qenv_of, decimalize. rewrite map_map. apply map_ext. intros [x v]. cbn. destruct v; reflexivity.
-Qed.
-
-Theorem program_views_agree p e d :
+(* the three program-side views and the denoted duration, for every configuration that compares decimal values *)
+Theorem program_views_agree_cfg p e d :
   den p (qenv_of e) = Some d ->
-  forall o, create_program p e = Ok o ->
+  forall o, create_program cf p e = Ok o ->
   match o with
   | None => d == 0
   | Some prog => loop_duration prog == d
@@ -760,7 +823,7 @@ Theorem program_views_agree p e d :
   end.
 Proof.
   intros Hd o Hc. unfold create_program in Hc. apply rbind_ok in Hc as (kids & Hk & Hc). inversion Hc; subst; clear Hc.
-  pose proof (Rp_all p e kids d Hk Hd) as Ht. pose proof (Lp_all p e kids Hk) as Hl.
+  pose proof (Rp_all p e kids d Hk Hd) as Ht. pose proof (Lp_all cf p e kids Hk) as Hl.
   destruct kids as [|k t].
   - cbn in Ht. symmetry. exact Ht.
   - assert (Hw : wfl (Node 1 (k :: t))) by (apply wfl_node; repeat split; [lia | discriminate | exact Hl]).
@@ -770,125 +833,92 @@ Proof.
     + destruct (wf_duration_is_loop_duration _ Hw) as (q & Hq & E). exists q. split; [exact Hq | rewrite E; exact Hld].
     + rewrite sum_pieces_is_duration. exact Hld.
 Qed.
+End Cfg.
+
+Lemma qenv_decimalize e : qenv_of (decimalize e) = qenv_of e.
+Proof.
+  unfold qenv_of, decimalize. rewrite map_map. apply map_ext. intros [x v]. cbn. destruct v; reflexivity.
+Qed.
 
 (* ------------------------------------------------------------------------------------------------------------ *)
-(* the symbolic duration (fragment without for-loop, table and atomic arithmetic) evaluates to the denoted duration *)
-Fixpoint simple (p : pt) : bool :=
-  match p with
-  | PAtom _ _ _ => true
-  | PTable _ _ | PFor _ _ _ _ _ | PArith _ _ => false
-  | PSeq subs => forallb simple subs
-  | PRep _ b | PMap _ b | PWrap b | PRev b => simple b
-  | PMulti _ subs => forallb simple subs
+(* the reading guard: comparing binary values (the code) and comparing decimal values lead to the same program.
+   The equality test is syntactic (numerator and denominator), so it reflects Leibniz equality. *)
+Definition Qsame (a b : Q) : bool := (Qnum a =? Qnum b)%Z && (Qden a =? Qden b)%positive.
+Lemma Qsame_eq a b : Qsame a b = true -> a = b.
+Proof.
+  destruct a, b. unfold Qsame. cbn. intros H. apply andb_prop in H as [H1 H2].
+  apply Z.eqb_eq in H1. apply Pos.eqb_eq in H2. subst. reflexivity.
+Qed.
+
+Fixpoint loop_same (a b : loop) : bool :=
+  match a, b with
+  | Leaf r d, Leaf r' d' => (r =? r')%Z && Qsame d d'
+  | Node r ks, Node r' ks' =>
+      (r =? r')%Z && (fix go (x y : list loop) : bool :=
+                        match x, y with
+                        | [], [] => true
+                        | k :: t, k' :: t' => loop_same k k' && go t t'
+                        | _, _ => false
+                        end) ks ks'
+  | _, _ => false
+  end.
+Definition loops_same : list loop -> list loop -> bool :=
+  fix go (x y : list loop) : bool :=
+    match x, y with
+    | [], [] => true
+    | k :: t, k' :: t' => loop_same k k' && go t t'
+    | _, _ => false
+    end.
+
+Lemma loop_same_eq : forall a b, loop_same a b = true -> a = b.
+Proof.
+  induction a using loop_ind'; intros [r' d'|r' ks']; cbn; intros Hs; try discriminate.
+  - apply andb_prop in Hs as [H1 H2]. apply Z.eqb_eq in H1. apply Qsame_eq in H2. subst. reflexivity.
+  - apply andb_prop in Hs as [H1 H2]. apply Z.eqb_eq in H1. subst r'. f_equal.
+    revert ks' H2. induction H as [|k t Hk Ht IH]; intros [|k' t'] H2; try discriminate; [reflexivity|].
+    apply andb_prop in H2 as [H2 H3]. f_equal; [apply Hk; exact H2 | apply IH; exact H3].
+Qed.
+
+Lemma loops_same_eq : forall x y, loops_same x y = true -> x = y.
+Proof.
+  induction x as [|k t IH]; intros [|k' t']; cbn; intros H; try discriminate; [reflexivity|].
+  apply andb_prop in H as [H1 H2]. f_equal; [apply loop_same_eq; exact H1 | apply IH; exact H2].
+Qed.
+
+(* both readings accept and build the same program *)
+Definition g_view (p : pt) (e : env) : bool :=
+  match cp real p e, cp lax p e with
+  | Ok a, Ok b => loops_same a b
+  | _, _ => false
   end.
 
-Lemma vsum_time l : forall v, vsum l = Ok v -> time_of v == qsum (map time_of l).
+Lemma g_view_eq p e kids : g_view p e = true -> cp real p e = Ok kids -> cp lax p e = Ok kids.
 Proof.
-  induction l as [|a t IH]; cbn; intros v H.
-  - inversion H; subst. reflexivity.
-  - apply rbind_ok in H as (s & Hs & H). rewrite (vadd_time _ _ _ H), (IH _ Hs). reflexivity.
+  unfold g_view. intros H Hc. rewrite Hc in H. destruct (cp lax p e); try discriminate.
+  apply loops_same_eq in H. subst. reflexivity.
 Qed.
 
-Definition Sp (p : pt) : Prop :=
-  simple p = true -> forall e v d, sym p e = Ok v -> den p (qenv_of e) = Some d -> time_of v == d.
+Lemma lax_cv : forall v, cv lax v = time_of v.
+Proof. reflexivity. Qed.
+Lemma ideal_cv : forall v, cv ideal v = time_of v.
+Proof. reflexivity. Qed.
 
-Lemma qsum_rel_v (vs : list value) ds : Forall2 (fun v d => time_of v == d) vs ds -> qsum (map time_of vs) == qsum ds.
-Proof. induction 1; cbn; [reflexivity | rewrite H, IHForall2; reflexivity]. Qed.
-
-Lemma Sp_all : forall p, Sp p.
+Lemma create_view p e o : g_view p e = true -> create_program real p e = Ok o -> create_program lax p e = Ok o.
 Proof.
-  induction p using pt_ind'; unfold Sp; intros Hs e v dd Hv Hd; cbn [simple] in Hs; try discriminate;
-    cbn [sym] in Hv; cbn [den] in Hd.
-  - apply obind_some in Hd as (q & Hq & Hd). destruct (Qleb 0 q); inversion Hd; subst.
-    destruct (eval_qeval _ _ _ Hv) as (q' & Hq' & E). rewrite Hq in Hq'. inversion Hq'; subst. symmetry; exact E.
-  - (* seq *)
-    apply rbind_ok in Hv as (vs & Hvs & Hv). apply obind_some in Hd as (ds & Hds & Hd). inversion Hd; subst; clear Hd.
-    apply rall_map_inv in Hvs. apply oall_map_inv in Hds.
-    rewrite (vsum_time _ _ Hv). apply qsum_rel_v.
-    assert (HP : Forall (fun c => simple c = true /\ Sp c) subs).
-    { rewrite forallb_forall in Hs. rewrite Forall_forall in *. intros c Hc. split; [apply Hs | apply H]; exact Hc. }
-    apply (Forall2_join (fun c => simple c = true /\ Sp c) (fun c k => sym c e = Ok k)
-             (fun c d => den c (qenv_of e) = Some d) (fun v d => time_of v == d) subs); [|exact HP|exact Hvs|exact Hds].
-    intros c k d [Hsc HS] H1 H2. exact (HS Hsc e k d H1 H2).
-  - (* rep *)
-    apply rbind_ok in Hv as (n & Hn & Hv). apply rbind_ok in Hv as (db & Hdb & Hv).
-    apply obind_some in Hd as (qc & Hqc & Hd). apply obind_some in Hd as (n' & Hn' & Hd).
-    destruct (eval_qeval _ _ _ Hn) as (q' & Hq' & E). rewrite Hqc in Hq'. inversion Hq'; subst q'.
-    apply qint_some in Hn'. rewrite (vmul_time _ _ _ Hv), <- E, Hn'.
-    destruct (n' <? 0)%Z; [discriminate|]. destruct (n' =? 0)%Z eqn:E0.
-    + inversion Hd; subst. apply Z.eqb_eq in E0. subst. ring.
-    + apply obind_some in Hd as (d0 & Hd0 & Hd). inversion Hd; subst. rewrite (IHp Hs _ _ _ Hdb Hd0). reflexivity.
-  - (* map *)
-    apply rbind_ok in Hv as (e' & He' & Hv). apply obind_some in Hd as (vs & Hvs & Hd).
-    eapply IHp; [exact Hs | eassumption|]. erewrite map_env_qenv; eassumption.
-  - (* multi *)
-    apply obind_some in Hd as (ds & Hds & Hd). destruct ds as [|d0 dt]; [discriminate|].
-    destruct (all_eq d0 dt); [|discriminate]. apply oall_map_inv in Hds.
-    destruct d as [x|].
-    + apply obind_some in Hd as (dv & Hdv & Hd). destruct (Qeqb dv d0) eqn:Eq; inversion Hd; subst.
-      destruct (eval_qeval _ _ _ Hv) as (q' & Hq' & E). rewrite Hdv in Hq'. inversion Hq'; subst.
-      apply Qeq_bool_iff in Eq. rewrite <- E. exact Eq.
-    + inversion Hd; subst. destruct subs as [|c t]; [discriminate|].
-      inversion Hds as [|? ? ? ? Hdc Hdt]; subst. inversion H as [|? ? HSc HSt]; subst. cbn in Hs. apply andb_prop in Hs as [Hs1 _].
-      exact (HSc Hs1 e v dd Hv Hdc).
-  - eapply IHp; eassumption.
-  - eapply IHp; eassumption.
+  unfold create_program. intros Hg H. apply rbind_ok in H as (kids & Hk & H).
+  rewrite (g_view_eq _ _ _ Hg Hk). exact H.
 Qed.
 
-(* ------------------------------------------------------------------------------------------------------------ *)
-(* combination, witnesses *)
-Definition guard_C04 (p : pt) (e : env) : bool := match den p (qenv_of e) with Some _ => true | None => false end.
-
-Theorem agree_partial p e d v o :
-  simple p = true -> den p (qenv_of e) = Some d -> create_program p e = Ok o -> sym p (decimalize e) = Ok v ->
-  time_of v == d /\
+(* the program side for the code itself (binary comparisons), under the reading guard *)
+Theorem program_views_agree p e d :
+  g_view p e = true -> den p (qenv_of e) = Some d ->
+  forall o, create_program real p e = Ok o ->
   match o with
   | None => d == 0
-  | Some prog => loop_duration prog == d /\ (exists q, wf_duration prog = Some q /\ q == d) /\ sum_pieces 1 prog == d
+  | Some prog => loop_duration prog == d
+                 /\ (exists q, wf_duration prog = Some q /\ q == d)
+                 /\ sum_pieces 1 prog == d
   end.
 Proof.
-  intros Hs Hd Hc Hv. split.
-  - eapply Sp_all; [exact Hs | exact Hv | rewrite qenv_decimalize; exact Hd].
-  - eapply program_views_agree; eassumption.
+  intros Hg Hd o Hc. apply (program_views_agree_cfg lax lax_cv p e d Hd). apply create_view; assumption.
 Qed.
-
-(* witnesses of the four input classes on which the unchanged code's numbers disagree *)
-Definition w_negcount : pt * env :=
-  (PRep (EVar 1%N) (PAtom KConst 0 (EVar 0%N)), [(0%N, VTime (1 # 10)); (1%N, VInt (-2))]).
-Definition w_negdur : pt * env :=
-  (PSeq [PAtom KConst 0 (EVar 0%N); PAtom KConst 0 (ELit (VInt 3))], [(0%N, VInt (-2))]).
-Definition w_nearint : pt * env :=
-  (PRep (EVar 1%N) (PAtom KConst 0 (ELit (VInt 1))), [(1%N, VTime (20000001 # 10000000))]).
-Definition w_parallel : pt * env :=
-  (PMulti None [PAtom KConst 0 (ELit (VInt 0)); PAtom KConst 1 (ELit (VInt 5))], []).
-
-Definition disagrees (w : pt * env) : Prop :=
-  exists kids v, cp (fst w) (snd w) = Ok kids /\ sym (fst w) (decimalize (snd w)) = Ok v /\ ~ time_of v == total kids.
-
-Lemma refuted_negcount : disagrees w_negcount /\ guard_C04 (fst w_negcount) (snd w_negcount) = false.
-Proof. split; [|reflexivity]. do 2 eexists. split; [vm_compute; reflexivity|]. split; [vm_compute; reflexivity|]. vm_compute. discriminate. Qed.
-Lemma refuted_negdur : disagrees w_negdur /\ guard_C04 (fst w_negdur) (snd w_negdur) = false.
-Proof. split; [|reflexivity]. do 2 eexists. split; [vm_compute; reflexivity|]. split; [vm_compute; reflexivity|]. vm_compute. discriminate. Qed.
-Lemma refuted_nearint : disagrees w_nearint /\ guard_C04 (fst w_nearint) (snd w_nearint) = false.
-Proof. split; [|reflexivity]. do 2 eexists. split; [vm_compute; reflexivity|]. split; [vm_compute; reflexivity|]. vm_compute. discriminate. Qed.
-Lemma refuted_parallel : disagrees w_parallel /\ guard_C04 (fst w_parallel) (snd w_parallel) = false.
-Proof. split; [|reflexivity]. do 2 eexists. split; [vm_compute; reflexivity|]. split; [vm_compute; reflexivity|]. vm_compute. discriminate. Qed.
-
-(* a non-trivial input that satisfies every hypothesis of the guarded theorems *)
-Definition ex_tpl : pt :=
-  PSeq [PRep (EVar 2%N) (PMap [(5%N, EMul (EVar 0%N) (ELit (VInt 3)))] (PAtom KConst 0 (EVar 5%N)));
-        PRev (PMulti (Some (EVar 1%N)) [PAtom KFunc 1 (EVar 1%N); PWrap (PAtom KConst 0 (EVar 1%N))])].
-Definition ex_env : env := [(0%N, VTime (1 # 10)); (1%N, VFloat (3602879701896397 # 36028797018963968) (1 # 10)); (2%N, VInt 1000000)].
-Lemma example_guard : simple ex_tpl = true /\ (exists d, den ex_tpl (qenv_of ex_env) = Some d /\ d == 3000001 # 10)
-  /\ (exists prog, create_program ex_tpl ex_env = Ok (Some prog)) /\ (exists v, sym ex_tpl (decimalize ex_env) = Ok v).
-Proof.
-  split; [vm_compute; reflexivity|]. split; [eexists; split; vm_compute; reflexivity|].
-  split; eexists; vm_compute; reflexivity.
-Qed.
-
-(* with a for-loop (program side only needs the guard) *)
-Definition ex_for : pt := PFor 3%N (ELit (VInt 5)) (EVar 1%N) (ELit (VInt (-2))) (PRep (EVar 3%N) (PAtom KConst 0 (EVar 0%N))).
-Definition ex_for_env : env := [(0%N, VTime (1 # 4)); (1%N, VInt 0)].
-Lemma example_for : (exists d, den ex_for (qenv_of ex_for_env) = Some d /\ d == 9 # 4)
-  /\ exists prog, create_program ex_for ex_for_env = Ok (Some prog).
-Proof. split; [eexists; split; vm_compute; reflexivity | eexists; vm_compute; reflexivity]. Qed.
